@@ -87,6 +87,9 @@ type c07Case struct {
 	HasChV    bool    `json:"has_chv,omitempty"`    // force the change value (the wallet's fee absorbs the rest)
 	ChangeV   int64   `json:"change_v,omitempty"`
 
+	// withdraw: output #0 pays to the NEXT account script (filled in from the harness keys at run time)
+	Twin bool `json:"twin,omitempty"`
+
 	// pure
 	Wt   uint8   `json:"wt,omitempty"`
 	Lock uint32  `json:"lock,omitempty"`
@@ -340,6 +343,7 @@ func c07ErrClass(err error) string {
 		{"current minimum account expiry", "expiryLow"},
 		{"current maximum account expiry", "expiryHigh"},
 		{"unsupported output script", "unsupportedScript"},
+		{"pays to the account's own output script", "ownScript"},
 		{"unable to parse output script", "unparsable"},
 		{"unsupported script type", "unparsable"},
 		{"new account value is below accepted minimum", "belowMin"},
@@ -451,6 +455,16 @@ func (x *c07Run) execOp(cs *c07Case) {
 		LndVersion:  &verrpc.Version{AppMajor: 0, AppMinor: 15, AppPatch: 1},
 	})
 	ctx := context.Background()
+	if cs.Twin && cs.Kind == "withdraw" && len(cs.Outs) > 0 {
+		v, x := cs.Acct.Version, cs.Acct.Expiry
+		if cs.NewVer > v {
+			v = cs.NewVer
+		}
+		if cs.ExpH != 0 {
+			x = cs.ExpH
+		}
+		cs.Outs[0].S = hex.EncodeToString(e.script(v, x, cs.Acct.Ctr+1))
+	}
 	reqOuts := c07CaseOuts(cs.Outs)
 	rate := chainfee.SatPerKWeight(cs.Rate)
 
@@ -699,6 +713,21 @@ func (x *c07Run) execOp(cs *c07Case) {
 			viol("new expiry not recorded")
 		}
 	}
+	// cooperative vs expiry path: a trader-only spend (no auctioneer request, lock
+	// time = best height) only once the account has expired; otherwise the
+	// auctioneer is asked exactly once and the lock time is 0
+	if expired {
+		if cs.Kind != "close" {
+			viol("modification accepted on the expiry path")
+		}
+		if nM != 0 || pub.LockTime != cs.Best {
+			viol(fmt.Sprintf("expiry-path spend with %d auctioneer requests and lock time %d (best %d)", nM, pub.LockTime, cs.Best))
+		}
+	} else if nM != 1 || pub.LockTime != 0 {
+		r.Count("oracle/path")
+		r.Violate(fmt.Sprintf("%s: account not expired (expiry %d, best %d) but spent with %d auctioneer requests and lock time %d",
+			cs.Kind, cs.Acct.Expiry, cs.Best, nM, pub.LockTime), "C07/spend-path", cs)
+	}
 	// the account outpoint is spent exactly once
 	cnt := 0
 	for _, in := range pub.TxIn {
@@ -897,7 +926,7 @@ func (x *c07Run) execPure(cs *c07Case) {
 	switch cs.Kind {
 	case "vau":
 		outs := c07CaseOuts(cs.Outs)
-		nv, err := account.VerifValueAfterAccountUpdate(btcutil.Amount(cs.Acct.Value), outs, cs.Wt, chainfee.SatPerKWeight(cs.Rate))
+		nv, err := account.VerifC07ValueAfterAccountUpdate(btcutil.Amount(cs.Acct.Value), outs, cs.Wt, chainfee.SatPerKWeight(cs.Rate))
 		res := c07Res(err)
 		if err == nil {
 			res = fmt.Sprintf("ok %d", int64(nv))
@@ -911,7 +940,7 @@ func (x *c07Run) execPure(cs *c07Case) {
 				tx.AddTxOut(o)
 				sum.Add(sum, big.NewInt(o.Value))
 			}
-			ws, _, _ := account.VerifWitnessSize(cs.Wt)
+			ws, _, _ := account.VerifC07WitnessSize(cs.Wt)
 			wgt := int64(tx.SerializeSizeStripped())*4 + 2 + ws
 			fee := new(big.Int).Quo(new(big.Int).Mul(big.NewInt(cs.Rate), big.NewInt(wgt)), big.NewInt(1000))
 			want := new(big.Int).Sub(new(big.Int).Sub(big.NewInt(cs.Acct.Value), sum), fee)
@@ -926,7 +955,7 @@ func (x *c07Run) execPure(cs *c07Case) {
 		r.Emit(fmt.Sprintf("C07 vau %d %d %d %s", cs.Acct.Value, cs.Wt, cs.Rate, c07FmtOuts(outs)), res)
 	case "closeout":
 		sc, _ := hex.DecodeString(cs.FeScript)
-		outs, err := account.VerifCloseOutputs(&account.OutputWithFee{PkScript: sc, FeeRate: chainfee.SatPerKWeight(cs.Rate)},
+		outs, err := account.VerifC07CloseOutputs(&account.OutputWithFee{PkScript: sc, FeeRate: chainfee.SatPerKWeight(cs.Rate)},
 			btcutil.Amount(cs.Acct.Value), cs.Wt)
 		res := c07Res(err)
 		if err == nil {
@@ -936,7 +965,7 @@ func (x *c07Run) execPure(cs *c07Case) {
 			tx := wire.NewMsgTx(2)
 			tx.AddTxIn(&wire.TxIn{})
 			tx.AddTxOut(&wire.TxOut{PkScript: sc})
-			ws, _, _ := account.VerifWitnessSize(cs.Wt)
+			ws, _, _ := account.VerifC07WitnessSize(cs.Wt)
 			wgt := int64(tx.SerializeSizeStripped())*4 + 2 + ws
 			fee := new(big.Int).Quo(new(big.Int).Mul(big.NewInt(cs.Rate), big.NewInt(wgt)), big.NewInt(1000))
 			want := new(big.Int).Sub(big.NewInt(cs.Acct.Value), fee)
@@ -951,7 +980,7 @@ func (x *c07Run) execPure(cs *c07Case) {
 		r.Count("closeout/" + strings.SplitN(res, " ", 2)[0] + c07Tail(res))
 		r.Emit(fmt.Sprintf("C07 closeout %d %d %d %s", cs.Acct.Value, cs.Wt, cs.Rate, c07Hex(sc)), res)
 	case "expiry":
-		err := account.VerifValidateAccountExpiry(cs.ExpH, cs.Best)
+		err := account.VerifC07ValidateAccountExpiry(cs.ExpH, cs.Best)
 		res := c07Res(err)
 		if err == nil {
 			r.Distinct(fmt.Sprint("e", cs.ExpH, cs.Best))
@@ -967,7 +996,7 @@ func (x *c07Run) execPure(cs *c07Case) {
 		r.Count("expiry/" + res)
 		r.Emit(fmt.Sprintf("C07 expiry %d %d", cs.ExpH, cs.Best), res)
 	case "value":
-		err := account.VerifValidateAccountValue(btcutil.Amount(cs.Acct.Value), btcutil.Amount(cs.Max))
+		err := account.VerifC07ValidateAccountValue(btcutil.Amount(cs.Acct.Value), btcutil.Amount(cs.Max))
 		res := c07Res(err)
 		if (err == nil) != (cs.Acct.Value >= 100000 && cs.Acct.Value <= cs.Max) {
 			r.Violate("validateAccountValue disagrees with [100000, max]", "C07/value", cs)
@@ -990,7 +1019,7 @@ func (x *c07Run) execPure(cs *c07Case) {
 		r.Emit("C07 class "+c07Hex(o.PkScript), fmt.Sprintf("%s nd=%v un=%v wp=%v", pc,
 			cl == txscript.NullDataTy, txscript.IsUnspendable(o.PkScript), txscript.IsWitnessProgram(o.PkScript)))
 	case "wsize":
-		s, ex, err := account.VerifWitnessSize(cs.Wt)
+		s, ex, err := account.VerifC07WitnessSize(cs.Wt)
 		res := "err"
 		if err == nil {
 			res = fmt.Sprintf("ok %d %v", s, ex)
@@ -1020,7 +1049,7 @@ func (x *c07Run) execPure(cs *c07Case) {
 		var pan interface{}
 		func() {
 			defer func() { pan = recover() }()
-			err = account.VerifSanityCheck(acct, p, cs.Wt)
+			err = account.VerifC07SanityCheck(acct, p, cs.Wt)
 		}()
 		res := c07Res(err)
 		if pan != nil {
